@@ -1,8 +1,107 @@
+import Qentem.Model.Unicode
 import Qentem.Driver.Proto
 namespace Qentem.Driver.Unicode
-open Qentem.Driver
+open Qentem.Driver Qentem.Unicode
 
-/-- Stub: replaced by the area's model driver. `op` is the first token of the line. -/
-def handle (_op : String) (_args : List String) : String := "bad-op"
+/-!
+Ops (all prefixed `uni`):
+  uni_enc  <w> <lo> <hi>                 groups `toUTF w u` for u in [lo,hi), joined by ';'
+  uni_esc  <w> <mode> <lo> <hi>          for cp in [lo,hi): `ret:units` of UnEscape on the string of `mode`
+  uni_un   <w> <prefill> <units>         `ret|stream` of UnEscape(units, |units|) on a stream holding prefill
+  uni_hex  <w> <units>                   HexStringToNumber<SizeT32>(units, |units|)
+  uni_dec  <w> <units>                   spec decoder: code points or `invalid`
+  uni_orc  <w> <mode> <lo> <hi> <groups> C20 oracle on implementation output: `ok` or `bad <cp>`
+Modes: d = direct ToUTF; l = `\uxxxx"` lower hex; u = `\uXXXX` upper hex, ended by length;
+U = `\UXXXX"` (capital U is accepted by the routine; not RFC 8259, correspondence only);
+c = inside a longer string (pre/post chosen from cp), quote-terminated, hex case from cp.
+-/
+
+/-- Width token: 1, 2, 4, or `W` (wchar_t, four bytes on this platform). -/
+def parseW (s : String) : Option Nat := if s == "W" then some 4 else s.toNat?
+
+def ctxPre (cp : Nat) : List Nat := (List.range (cp % 4)).map (· + 97)
+def ctxPost (cp : Nat) : List Nat := (List.range (cp / 4 % 3)).map (· + 120)
+
+/-- The input string of a mode and the text it denotes (as code points). -/
+def modeInput (mode : String) (cp : Nat) : Option (List Nat × List Nat) :=
+  if mode == "l" then some (jsonEscape false false cp ++ [34], [cp])
+  else if mode == "u" then some (jsonEscape false true cp, [cp])
+  else if mode == "U" then some (jsonEscape true true cp ++ [34], [cp])
+  else if mode == "c" then
+    some (ctxPre cp ++ jsonEscape false (cp % 2 == 1) cp ++ ctxPost cp ++ [34], ctxPre cp ++ [cp] ++ ctxPost cp)
+  else none
+
+def showRes : Option (List Nat × Nat) → String
+  | none => "FAULT"
+  | some (st, r) => toString r ++ "|" ++ showNats st
+
+def showGroup : Option (List Nat × Nat) → String
+  | none => "FAULT"
+  | some (st, r) => toString r ++ ":" ++ showNats st
+
+def range (lo hi : Nat) : List Nat := (List.range (hi - lo)).map (· + lo)
+
+def parseGroup (g : String) : Option (Nat × List Nat) :=
+  match g.splitOn ":" with
+  | [r, u] => match r.toNat?, parseNats u with
+    | some r, some u => some (r, u)
+    | _, _ => none
+  | _ => none
+
+/-- The C20 predicate on what the implementation produced for `cp` in `mode`. -/
+def oracleOne (w : Nat) (mode : String) (cp : Nat) (g : String) : Bool :=
+  if mode == "d" then
+    match parseNats g with
+    | some u => utfDecode w u == some [cp]
+    | none => false
+  else
+    match modeInput mode cp, parseGroup g with
+    | some (inp, txt), some (r, u) => r == inp.length && utfDecode w u == some txt
+    | _, _ => false
+
+def oracle (w : Nat) (mode : String) (lo hi : Nat) (groups : String) : String :=
+  let gs := groups.splitOn ";"
+  let cps := range lo hi
+  if gs.length != cps.length then "bad-count"
+  else
+    match (cps.zip gs).find? (fun (cp, g) => !oracleOne w mode cp g) with
+    | some (cp, _) => "bad " ++ toString cp
+    | none => "ok"
+
+def handle (op : String) (args : List String) : String :=
+  match op, args with
+  | "uni_enc", [w, lo, hi] =>
+    match parseW w, lo.toNat?, hi.toNat? with
+    | some w, some lo, some hi => ";".intercalate ((range lo hi).map (fun u => showNats (toUTF w u)))
+    | _, _, _ => "bad-op"
+  | "uni_esc", [w, mode, lo, hi] =>
+    match parseW w, lo.toNat?, hi.toNat? with
+    | some w, some lo, some hi =>
+      ";".intercalate ((range lo hi).map (fun cp =>
+        match modeInput mode cp with
+        | some (inp, _) => showGroup (unEscape inp w)
+        | none => "bad-mode"))
+    | _, _, _ => "bad-op"
+  | "uni_un", [w, pre, u] =>
+    match parseW w, parseNats pre, parseNats u with
+    | some w, some pre, some u => showRes (unEscapeA w u u.length pre)
+    | _, _, _ => "bad-op"
+  | "uni_hex", [_w, u] =>
+    match parseNats u with
+    | some u => match hexLoop u u.length 0 0 with
+      | some (n, _) => toString n
+      | none => "FAULT"
+    | none => "bad-op"
+  | "uni_dec", [w, u] =>
+    match parseW w, parseNats u with
+    | some w, some u => match utfDecode w u with
+      | some l => showNats l
+      | none => "invalid"
+    | _, _ => "bad-op"
+  | "uni_orc", [w, mode, lo, hi, gs] =>
+    match parseW w, lo.toNat?, hi.toNat? with
+    | some w, some lo, some hi => oracle w mode lo hi gs
+    | _, _, _ => "bad-op"
+  | _, _ => "bad-op"
 
 end Qentem.Driver.Unicode
